@@ -64,7 +64,7 @@ def corpus_lines():
 def sched_cases(rng, n):
     cases = []
     for _ in range(n):
-        proj = G.gen_project(rng)
+        proj = G.gen_twin_project(rng) if rng.random() < 0.12 else G.gen_project(rng)
         sp = []
         for kind in G.KINDS:
             opt = G.spelling_options(rng, proj, kind)
